@@ -40,6 +40,16 @@ TrSchema == /\ IsEvent("Schema")
             /\ hist' = << EmptyDb(Ev.tables) >>
             /\ UNCHANGED <<tst, callC, phys>>
 
+\* a schema change (index created or dropped; columns and rows unchanged), logged inside
+\* the state mutex just before the StateU of the same update
+TrSchemaU == /\ IsEvent("SchemaU")
+             /\ Names(Ev.tables) = Names(S)
+             /\ S' = Ev.tables
+             /\ UNCHANGED <<hist, tst, callC, phys>>
+
+\* outcome of an administrative request as seen by its caller (informational)
+TrAdmin == IsEvent("Admin") /\ UNCHANGED <<S, hist, tst, callC, phys>>
+
 ----------------------------------------------------------------------------
 (* transactions *)
 
@@ -255,14 +265,15 @@ TrState == /\ IsEvent("StateU")
            /\ \A i \in 1..Len(Ev.tables) :
                 LET tb == Ev.tables[i] IN
                   /\ TableOK(tb, Cur[tb.name])
-                  /\ tb.name \in DOMAIN phys => StepOK(Ev.kind, phys[tb.name], tb)
+                  /\ (tb.name \in DOMAIN phys /\ Len(phys[tb.name].idx) = Len(tb.idx))
+                        => StepOK(Ev.kind, phys[tb.name], tb)
            /\ phys' = [n \in DOMAIN phys \cup { Ev.tables[i].name : i \in 1..Len(Ev.tables) } |->
                         IF \E i \in 1..Len(Ev.tables) : Ev.tables[i].name = n
                         THEN Ev.tables[CHOOSE i \in 1..Len(Ev.tables) : Ev.tables[i].name = n]
                         ELSE phys[n]]
            /\ UNCHANGED <<S, hist, tst, callC>>
 
-TraceNext == \/ TrReset \/ TrSchema \/ TrBeginCall \/ TrBegin \/ TrBeginFail
+TraceNext == \/ TrReset \/ TrSchema \/ TrSchemaU \/ TrAdmin \/ TrBeginCall \/ TrBegin \/ TrBeginFail
              \/ TrAborted \/ TrRead \/ TrOutput \/ TrUpdate \/ TrDelete
              \/ TrCommit \/ TrComplete \/ TrRollback \/ TrState
 
